@@ -602,6 +602,7 @@ def parse_error_dropped(F, rep):
         for m in nodes(fn_body(fn)):
             sub = None
             dropped = False
+            retry_arm = None
             when = "always"
             if m.get("k") == "Match":
                 calls = [c for c in nodes(m["scrut"], "Call") if (callee(c) or "").startswith("sylt_parser::")
@@ -609,16 +610,20 @@ def parse_error_dropped(F, rep):
                 if not calls:
                     continue
                 sub = calls[0]
+                has_ok_arm = any((pat_variant_of(alt) or "").endswith("Result::Ok") for arm in m["arms"] for alt in _alts(arm["pat"]))
                 for arm in m["arms"]:
                     for alt in _alts(arm["pat"]):
-                        if _is_err_wild(alt):
+                        # `Err(_) => ..` - or, next to an `Ok(..)` arm, a catch-all `_ => ..`
+                        catch_all = has_ok_arm and _strip(alt).get("k") == "Wild"
+                        if _is_err_wild(alt) or catch_all:
                             from hir import diverges, ppat
                             if not diverges(arm["body"]) and not _returns_err(arm["body"]):
                                 dropped = True
+                                retry_arm = arm
                                 # the circumstances under which the errors are dropped are part of the instance: a known
                                 # finding for `(Err(_), true)` (prime calls only) must not hide a change to plain `Err(_)`
                                 txt = ppat(alt).replace(" ", "")
-                                when = "always" if txt in ("Result::Err(_)", "Err(_)") else "when" + txt.replace("Result::", "")
+                                when = "always" if txt in ("Result::Err(_)", "Err(_)", "_") else "when" + txt.replace("Result::", "")
             elif m.get("k") == "If":
                 c = peel(m["c"])
                 if c.get("k") == "LetCond" and (pat_variant_of(c["pat"]) or "").endswith("Result::Ok"):
@@ -628,11 +633,22 @@ def parse_error_dropped(F, rep):
                         sub = calls[0]
                         from hir import diverges
                         dropped = not diverges(m["e"]) and not _returns_err(m["e"])
+                        retry_arm = dict(body=m["e"])
             if sub is None or not dropped:
                 continue
             n += 1
             key = "%s|%s|%s" % (fname, last(callee(sub)), when)
             ex = PARSE_RETRY_EXEMPT.get((fname, last(callee(sub))))
+            if ex is None and retry_arm is not None:
+                # the arm that drops the errors parses the same tokens again with another parser, from the very same cursor:
+                # that parser's own error is what gets reported (wherever this code lives - helper or inlined)
+                a0 = peel(sub["args"][0]) if sub.get("args") else {}
+                # (in the arm itself, or - `let is_x = match probe(ctx) {..}; if is_x { a(ctx) } else { b(ctx) }` - anywhere later)
+                later = [c_ for c_ in nodes(fn_body(fn), "Call") if (c_.get("sp") or "") > (sub.get("sp") or "")]
+                for c2 in list(nodes(retry_arm["body"], "Call")) + later:
+                    if c2 is not sub and (callee(c2) or "").startswith("sylt_parser::") and "Result<(sylt_parser::Context" in (c2.get("ty") or "") \
+                            and c2.get("args") and peel(c2["args"][0]).get("hid") is not None and peel(c2["args"][0]).get("hid") == a0.get("hid"):
+                        ex = "the same tokens are parsed again from the same cursor by %s, whose own error is the one reported" % last(callee(c2))
             if ex is None and last(callee(sub)) == "parse_type":
                 # a type is written on one line: parse_type (and what it calls) never switches newline skipping on, so
                 # the error reported instead of the discarded one is on the same line
@@ -646,6 +662,11 @@ def parse_error_dropped(F, rep):
                    "syntax error inside the construct (possibly lines below) is reported somewhere else" % (fname, last(callee(sub))),
                    line_of(m))
     rep.floor("PARSE-ERROR-DROPPED", "speculative sub-parses", n, 1)
+
+
+def _strip(p):
+    from hir import pat_strip
+    return pat_strip(p)
 
 
 def _alts(p):
